@@ -849,3 +849,129 @@ func partialModeOffForOperands(c *core.Ctx) {
 		core.Undecidedf("no compile function reads %s", flag.Name())
 	}
 }
+
+// parseResultsTestedBeforeUse (C03-R12): the result of parseExpression /
+// parseNode (which is nil, without an error, when the token is a newline) is
+// tested for nil before it is put into a syntax-tree node.  The compiler
+// dereferences every child of a node, outside any recover.
+func parseResultsTestedBeforeUse(c *core.Ctx) {
+	p := c.P
+	pp := p.Pkg("parser")
+	parserT := core.MustType(pp, "Parser")
+	var sources []*ssa.Function
+	for _, name := range []string{"parseExpression", "parseNode"} {
+		if m := core.Method(parserT, name); m != nil {
+			sources = append(sources, p.SSAFunc(m))
+		}
+	}
+	if len(sources) == 0 {
+		core.Undecidedf("parser.parseExpression / parseNode not found")
+	}
+	isSource := func(f *ssa.Function) bool {
+		for _, s := range sources {
+			if s == f {
+				return true
+			}
+		}
+		return false
+	}
+	n := 0
+	for _, fn := range repoFns(p, "parser") {
+		k := 0
+		for _, b := range fn.Blocks {
+			for _, in := range b.Instrs {
+				call, ok := in.(*ssa.Call)
+				if !ok || !isSource(call.Call.StaticCallee()) || call.Referrers() == nil {
+					continue
+				}
+				// uses as an argument of an ast constructor, possibly through an interface conversion
+				type use struct {
+					call *ssa.Call
+					at   *ssa.BasicBlock // where the value must already be known non-nil
+				}
+				var uses []use
+				var visit func(v ssa.Value, d int, at *ssa.BasicBlock)
+				visit = func(v ssa.Value, d int, at *ssa.BasicBlock) {
+					if d > 3 || v.Referrers() == nil {
+						return
+					}
+					for _, r := range *v.Referrers() {
+						switch x := r.(type) {
+						case *ssa.Call:
+							if cal := x.Call.StaticCallee(); cal != nil && cal.Pkg != nil && cal.Pkg.Pkg != nil && cal.Pkg.Pkg.Path() == pkgPath("ast") && strings.HasPrefix(cal.Name(), "New") {
+								if optionalChildren[cal.Name()] != "" {
+									continue
+								}
+								blk := at
+								if blk == nil {
+									blk = x.Block()
+								}
+								uses = append(uses, use{x, blk})
+							}
+						case *ssa.ChangeInterface:
+							visit(x, d+1, at)
+						case *ssa.MakeInterface:
+							visit(x, d+1, at)
+						case *ssa.Phi:
+							// the value enters the phi at the end of the predecessor that carries it
+							for i, e := range x.Edges {
+								if e == v && at == nil {
+									visit(x, d+1, x.Block().Preds[i])
+								}
+							}
+						}
+					}
+				}
+				visit(call, 0, nil)
+				for _, uu := range uses {
+					u := uu.call
+					n++
+					k++
+					guarded := nonNilGuardDominates(call, uu.at) || nilBranchReportsError(call)
+					c.Check(guarded, core.SSAName(fn)+"|"+call.Call.StaticCallee().Name()+"#"+itoa(k)+"|nil-tested-before-"+u.Call.StaticCallee().Name(), p.Pos(u.Pos()),
+						fn.Name()+" gives the result of "+call.Call.StaticCallee().Name()+" to ast."+u.Call.StaticCallee().Name()+" only after testing it for nil")
+				}
+			}
+		}
+	}
+	c.Stat("parse_results_into_constructors", n)
+}
+
+// Constructors whose expression children may be absent (the compiler tests them
+// for nil): a nil there is a legitimate "not given".
+var optionalChildren = map[string]string{
+	"NewFor":   "init, condition and post of a for loop are all optional (for ;; { }), compileFor tests each",
+	"NewSlice": "both bounds of a slice expression are optional (x[:n], x[n:], x[:])",
+}
+
+// nilBranchReportsError: some test of v against nil leads to a block that calls
+// a Parser method reporting an error (the tree is then discarded by Parse).
+func nilBranchReportsError(v ssa.Value) bool {
+	if v.Referrers() == nil {
+		return false
+	}
+	for _, r := range *v.Referrers() {
+		bo, ok := r.(*ssa.BinOp)
+		if !ok || (bo.Op != token.EQL && bo.Op != token.NEQ) || bo.Referrers() == nil {
+			continue
+		}
+		for _, r2 := range *bo.Referrers() {
+			iff, ok := r2.(*ssa.If)
+			if !ok {
+				continue
+			}
+			nilSide := iff.Block().Succs[0]
+			if bo.Op == token.NEQ {
+				nilSide = iff.Block().Succs[1]
+			}
+			for _, in := range nilSide.Instrs {
+				if ci, ok := in.(ssa.CallInstruction); ok {
+					if cal := ci.Common().StaticCallee(); cal != nil && strings.Contains(cal.Name(), "Error") {
+						return true
+					}
+				}
+			}
+		}
+	}
+	return false
+}
